@@ -1169,7 +1169,14 @@ func (sys *System) ClearLocation(ctx *Context, location string) error {
 	} else {
 		Log(DEBUG, ctx, "System.ClearLocation", "location", location)
 		Metric(ctx, "System.ClearLocation", "location", location)
+		// Clearing a location removes what is in it.  It does
+		// not make the location one that was never created, so
+		// the marker (if any) is kept.
+		createdAt, created, _ := loc.GetPropString(ctx, createdMarker, "")
 		err = loc.Clear(ctx)
+		if err == nil && created {
+			err = loc.SetProp(ctx, "", createdMarker, createdAt)
+		}
 		if err != nil {
 			Log(ERROR, ctx, "System.ClearLocation", "location", location, "error", err, "when", "clear")
 		} else {
